@@ -180,6 +180,29 @@ def run_case(desc):
 
     bounds = np.array([[-20.0, 20.0], [-1.0, 3.0]])
     fp = FunctionProblem(f, bounds, maximize)
+    custom_inner = desc.get("idx", 0) % 5 == 4
+    if custom_inner:
+        from pyhms.core.problem import Problem
+
+        class ClosestToTarget(Problem):
+            """A user-defined innermost problem with its own notion of 'worse' (distance of the value to a target)."""
+
+            def evaluate(self, genome, *a, **k):
+                return f(genome)
+
+            def worse_than(self, first_fitness, second_fitness):
+                return abs(first_fitness - 0.25) > abs(second_fitness - 0.25)
+
+            @property
+            def bounds(self):
+                return bounds
+
+            @property
+            def maximize(self):
+                return maximize
+
+        fp = ClosestToTarget()
+        cov["custom_innermost_problem"] += 1
     p = fp
     objs, models = [], []
     for w in desc["stack"]:
@@ -209,15 +232,21 @@ def run_case(desc):
         viol("bounds of the stack are not those of the innermost problem", stack=shape)
     if bool(top.maximize) != maximize:
         viol("direction of the stack is not that of the innermost problem", stack=shape, maximize=maximize, got=bool(top.maximize))
-    if get_function_problem(top) is not fp:
+    if not custom_inner and get_function_problem(top) is not fp:
         viol("get_function_problem does not return the innermost problem", stack=shape)
-    pairs = [(1.0, 2.0), (2.0, 1.0), (1.0, 1.0), (math.inf, 1.0), (1.0, -math.inf), (-math.inf, math.inf), (0.0, -0.0)]
+    pairs = [(1.0, 2.0), (2.0, 1.0), (1.0, 1.0), (math.inf, 1.0), (1.0, -math.inf), (-math.inf, math.inf), (0.0, -0.0), (math.nan, 1.0), (1.0, math.nan), (-3.0, 0.3), (0.3, -3.0)]
     for a, b in pairs:
-        want = (a < b) if maximize else (a > b)
         got = top.worse_than(a, b)
         cov["worse_than_pairs"] += 1
-        if bool(got) != want or bool(got) != bool(fp.worse_than(a, b)):
-            viol("fitness comparison of the stack differs from the innermost problem's direction", stack=shape, a=a, b=b, got=bool(got), maximize=maximize)
+        inner = fp.worse_than(a, b)
+        if not custom_inner and not (a != a or b != b):
+            want = (a < b) if maximize else (a > b)
+            if bool(inner) != want:
+                viol("FunctionProblem.worse_than does not follow the declared direction", a=a, b=b, maximize=maximize)
+        if bool(got) != bool(inner):
+            nan = " (NaN operand)" if (a != a or b != b) else ""
+            cust = " (user-defined innermost problem)" if custom_inner else ""
+            viol(f"fitness comparison of the stack differs from the innermost problem's{nan}{cust}", stack=shape, a=a, b=b, got=bool(got), innermost=bool(inner), maximize=maximize)
 
     past_cutoff = 0
     hits = 0
